@@ -9,6 +9,7 @@ import os, re, sys, unicodedata
 sys.path.insert(0, os.path.dirname(os.path.abspath(__file__)))
 from common import hexs, unhexs, rng
 import cifdesc
+import storecontract
 
 FAMILY = "store"
 HARNESS = {"source": "x_store.c", "leak_clean": True, "extra_sources": ["x_store_body.h", "cifio.h"]}
@@ -1477,7 +1478,13 @@ def classify(req, impl):
     n = len(steps)
     fails = sum(1 for s in steps if s["rc"] not in (0, None))
     intx = sum(1 for s in steps if "0" in s["ac"])
-    return "ops<=%d fail%%=%d in-tx=%s" % ((n + 9) // 10 * 10, (100 * fails // max(1, n)) // 25 * 25, "y" if intx else "n")
+    return "ops<=%d fail%%=%d in-tx=%s %s" % ((n + 9) // 10 * 10, (100 * fails // max(1, n)) // 25 * 25, "y" if intx else "n",
+                                             storecontract.label(req))
+
+
+def model_request(req, impl):
+    """the request goes to the model unchanged; it is recorded so that the contract verdicts are computed in one batch"""
+    return storecontract.record(req)
 
 
 def shrink(req):
